@@ -34,6 +34,9 @@ fn tune_allocator() {
 
 pub fn main_entry(hooks: bool) {
     tune_allocator();
+    // anyhow captures a backtrace (behind a global lock) for every error when backtraces are on;
+    // the description checks create errors by the million (recursive types)
+    std::env::set_var("RUST_LIB_BACKTRACE", "0");
     let args: Vec<String> = std::env::args().skip(1).collect();
     if args.is_empty() {
         machinery("usage: mc check <ID> [--tier quick|thorough] | mc replay <file> | mc conformance");
